@@ -181,13 +181,13 @@ func Walk(fsys afero.Fs, root string) []Entry {
 
 // Row is one raw row of the headers table.
 type Row struct {
-	Name, Linkname          string
-	Deleted, Typeflag       int64
-	Record, Block           int64
-	LastRecord, LastBlock   int64
-	Size, Mode, UID, GID    int64
-	Modtime, Atime, Ctime   string
-	Pax                     string
+	Name, Linkname        string
+	Deleted, Typeflag     int64
+	Record, Block         int64
+	LastRecord, LastBlock int64
+	Size, Mode, UID, GID  int64
+	Modtime, Atime, Ctime string
+	Pax                   string
 }
 
 func NormName(n string) string {
@@ -303,11 +303,11 @@ func parsePax(b []byte) map[string]string {
 // Scan walks a tape image block by block: records (optional 'x'/'g' PAX blocks + main header + payload) and
 // zero-block trailers. It stops at the first thing that is neither (Complete=false), or at the end.
 type ScanResult struct {
-	Recs      []Rec
-	Complete  bool   // reached the end of the image on the block grid with only records and zero blocks
-	StopOff   int64  // where scanning stopped
-	StopWhy   string
-	Trailers  []int64 // offsets of zero-block runs
+	Recs     []Rec
+	Complete bool  // reached the end of the image on the block grid with only records and zero blocks
+	StopOff  int64 // where scanning stopped
+	StopWhy  string
+	Trailers []int64 // offsets of zero-block runs
 }
 
 func Scan(img []byte) ScanResult {
